@@ -136,6 +136,17 @@ pub fn run_c15(cfg: &Cfg) -> i32 {
         database.ases.insert(sunk_as, irrfake::db::AsRoutes { v4: vec![(0xC633_6400, 24)], v6: vec![] });
         faults.by_query.insert(format!("!gAS{sunk_as}"), Fault::Other(crate::c11::long_message(&mut r, "route query refused")));
         faults.by_query.insert(format!("!6AS{sunk_as}"), Fault::Other(crate::c11::long_message(&mut r, "route query refused")));
+        // two more good policies that name the same as-set, whose first expansion the IRR refuses
+        // once (a timeout, an overloaded server): the policy that asked is unevaluable in this run,
+        // the other one asks again and is answered - an error is not something to remember
+        let transient_shared = idx % 3 == 0;
+        if transient_shared {
+            database.as_sets.insert("AS-SHARED-T".into(), vec![irrfake::db::AsSetMember::As(65000)]);
+            managed.push((format!("{prefix}t-shared-1"), "AS-SHARED-T".to_string()));
+            managed.push((format!("{prefix}t-shared-2"), "AS-SHARED-T AND {0.0.0.0/0^8-24}".to_string()));
+            faults.once.insert("!iAS-SHARED-T,1".into(), Fault::Other("query processing timed out".into()));
+            rep.count("cases_with_a_transient_error_on_a_set_two_policies_share");
+        }
         let irr = match Server::start(database.clone(), faults) {
             Ok(s) => s,
             Err(e) => {
@@ -205,6 +216,14 @@ pub fn run_c15(cfg: &Cfg) -> i32 {
             let name = format!("{prefix}{}", b.name);
             if g.ephemeral.policies.get(&name) != before.policies.get(&name) {
                 problems.push(format!("unevaluable policy {name} was modified"));
+            }
+        }
+        if transient_shared && run.exit == Some(0) {
+            let got: Vec<bool> = ["t-shared-1", "t-shared-2"].iter().map(|n| g.committed.as_ref().map_or(false, |c| c.policies.contains_key(&format!("{prefix}{n}")))).collect();
+            match got.iter().filter(|x| **x).count() {
+                0 => problems.push("the IRR refused ONE expansion of the shared as-set, yet neither of the two policies naming it was installed".into()),
+                1 => rep.count("transient_error_cost_exactly_the_policy_that_asked"),
+                _ => rep.count("transient_error_not_consumed_by_either_policy"),
             }
         }
         if problems.is_empty() {
@@ -356,7 +375,10 @@ pub fn run_l2(cfg: &Cfg, prop: L2) -> i32 {
                     if !r.chance(1, 3) {
                         victims.truncate(r.range(1, 3.min(victims.len())));
                     }
-                    let text = match r.below(6) {
+                    let text = match r.below(7) {
+                        // a construct the evaluator does not implement (it panics on it): no prefix
+                        // data can be obtained for this policy either
+                        6 => "AS65000 AND <^AS65000+$>".to_string(),
                         5 => "FLTR-VH-DEEP1".to_string(),
                         0 => "AS-DOES-NOT-EXIST".to_string(),
                         1 => failing_set.clone().unwrap_or_else(|| "AS-DOES-NOT-EXIST".into()),
